@@ -1165,7 +1165,7 @@ pub fn generate(seed: u64) -> C11Scenario {
     }
     let config_text = parts.to_text();
     let mut invocation =
-        gen::gen_invocation(&mut rk, &project, &config_text, true, !real, backend);
+        gen::gen_invocation(&mut rk, &project, &config_text, true, !real, backend, true);
     if project.convert && !convert_to_path {
         // the sourcemap sits next to the configuration file
         let config_path = invocation
